@@ -1,0 +1,28 @@
+//go:build verif
+
+package clearsign
+
+// Contracts for govc (/verif). Comments only.
+//
+// C45: clearsign.Decode returns for every byte string without an index or slice out of range. The
+// searches of package bytes are assumed to return positions inside their argument; armor.Decode (the
+// armored signature at the end) is trusted here.
+
+// getLine: the line and the rest are sub-slices of data, and the rest is strictly shorter unless data is empty
+//@ func getLine
+//@ props C45
+//@ ensures len(line) <= len(data) && len(rest) <= len(data)
+//@ ensures implies(len(data) > 0, len(rest) < len(data) || len(line) > 0)
+//@ ensures implies(len(line) > 0, sameobj(line, data) && off(line) == off(data))
+//@ ensures implies(len(rest) > 0, sameobj(rest, data) && off(rest) + len(rest) == off(data) + len(data))
+//@ canary ensures len(line) == 0
+
+//@ func Decode
+//@ props C45
+//@ assume_global len(start) == 35 && len(end) == 28 && len(dashEscape) == 2 && len(endText) == 29 && len(crlf) == 2
+//@ modifies heap
+//@ loop 1 invariant len(start) == 35 && len(end) == 28 && len(dashEscape) == 2 && len(endText) == 29 && len(crlf) == 2
+//@ loop 2 invariant len(end) == 28 && len(dashEscape) == 2 && len(endText) == 29 && len(crlf) == 2
+//@ loop 3 invariant 0 <= i && i <= len(rest)
+//@ ensures implies(b == nil, len(rest) == len(data))
+//@ canary ensures b != nil
